@@ -85,7 +85,7 @@ PartSpec(k, s, enc, del, pd) == [ct |-> IF k = 1 THEN "plain" ELSE IF k = 2 THEN
                              enc |-> enc, desc |-> pd, cc |-> Pick(CCS, s + 3 * k), prod |-> Pick(PRODS, s + k),
                              del |-> del]
 FileSpec(k, s, enc, embed, fd, fn, fc) == [enc |-> enc, desc |-> fd, ctype |-> ((s + k) % 2 = 0),
-                               cid |-> IF embed THEN fc ELSE "", name |-> fn,
+                               cid |-> fc, name |-> fn,                \* (attachments can be given a Content-ID too)
                                src |-> Pick(SRCS, s + 2 * k + (IF embed THEN 1 ELSE 0)),
                                cc |-> Pick(CCS, s + 5 * k + (IF embed THEN 2 ELSE 7))]
 
@@ -93,7 +93,7 @@ AllProgs ==
   {[enc |-> e,
     parts  |-> [k \in 1..np |-> PartSpec(k, rot + np + 2 * ne + 3 * na, pe[k], k = dl, IF k = np THEN pd ELSE "")],
     embeds |-> [k \in 1..ne |-> FileSpec(k, rot + np + ne, fe, TRUE, IF k = 1 THEN fd ELSE "", IF k = 1 THEN fn ELSE "", fc)],
-    atts   |-> [k \in 1..na |-> FileSpec(k, rot + na + 4, fa, FALSE, IF k = na THEN fd ELSE "", IF k = na THEN fn ELSE "", "")],
+    atts   |-> [k \in 1..na |-> FileSpec(k, rot + na + 4, fa, FALSE, IF k = na THEN fd ELSE "", IF k = na THEN fn ELSE "", IF k = na THEN fc ELSE "")],
     boundary |-> b, hdrs |-> hs, smime |-> sm, mw |-> mw, style |-> st, pgp |-> pg] :
      e \in ENCS, np \in 0..MAXP, ne \in 0..MAXE, na \in 0..MAXA, rot \in ROTS, b \in BOUNDARIES,
      pe \in [1..MAXP -> PENCS], fe \in FENCS, fa \in FENCS, dl \in DELS,
